@@ -16,7 +16,7 @@ ASSUMPTIONS = ["Transaction::covenants_as_map maps hash(covenant bytes) ↦ byte
 AP = "melstf::state::applytx::"
 COIN = "elem(Iterator::enumerate($2.inputs)).1"
 IDX = "elem(Iterator::enumerate($2.inputs)).0"
-CDATA = "(HashMap::get($3, %s) as Some).0" % COIN
+CDATA = "try(HashMap::get($3, %s))" % COIN
 
 
 def r1_no_bypass(ctx):
@@ -105,7 +105,7 @@ def r2_verdict(ctx):
         r.check(not any(o in f.reach_from(bi) for o in oks), "decode/fail=>err", "undecodable ⇒ no Ok", "with an undecodable script Ok is reachable", v.where(bi))
     ex = q.call_exprs(v, "Covenant::execute")
     for bi, e in ex:
-        r.check(sig(e[2][0]).startswith("try(Result::map_err(Covenant::from_bytes("), "execute/script", "executes the decoded script", "executes %s" % sig(e[2][0])[:100], v.where(bi))
+        r.check(sig(e[2][0]).startswith("try(Covenant::from_bytes("), "execute/script", "executes the decoded script", "executes %s" % sig(e[2][0])[:100], v.where(bi))
     verdicts = [(bi, e) for bi, e in q.call_exprs(v, "Option::unwrap_or") if q.is_call(e[2][0], "Option::map") and q.is_call(e[2][0][2][0], "Covenant::execute")]
     r.check(len(verdicts) == 1, "verdict/shape", "verdict = execute(..).map(..).unwrap_or(..)", "verdict expressions: %d" % len(verdicts))
     for bi, e in verdicts:
@@ -164,7 +164,7 @@ def r4_heap_layout(ctx):
     r = ctx.rule("R4", "Executor::new_from_env: 11 distinct HADDR_* slots, each with its designated component; Covenant::execute = new_from_env(self.ops, tx, env).run_to_end()")
     b = ctx.body("melvm::executor::Executor::new_from_env", r)
     ins = q.call_exprs(b, "HashMap::insert")
-    ENV = "($3 as Some).0"
+    ENV = "try($3)"
     want = {
         "HADDR_SPENDER_TXHASH": "Value::from_bytes(Transaction::hash_nosigs($2).0)",
         "HADDR_SPENDER_TX": "$2",
